@@ -137,3 +137,58 @@ EXPLANATION = {'C08': (
 ASSUMPTIONS = {'C08': [
     'structural grammar of the T4 file as in harness/t4file.py (written from the converter own output format)',
 ]}
+
+
+@contract(CV.remove_empty_volumes, props=['C08', 'C01'], name='ConstructVolumeT4.remove_empty_volumes', status='B')
+class _RemoveEmpty:
+    """Pruning of patently empty volumes: every volume that survives denotes what it denoted before, every removed
+    volume denoted the empty set, no surviving volume lists a surface on both sides, and no operator refers to a
+    removed volume (checked for every assignment of senses, the two helper planes denoting the empty set together)."""
+    scope = ('dictionaries of 3 volumes: EQUA part in {none, +5, +5-5 (empty), +5-6, -6+6 (empty)} x operator in '
+             '{none, INTE, UNION} over the later volumes (1-2 operands)')
+
+    def bounded(tier):
+        equas = [((), ()), ((5,), ()), ((5,), (5,)), ((5,), (6,)), ((6,), (6,))]
+        opsets = {3: [None], 2: [None, ('INTE', (3,)), ('UNION', (3,))],
+                  1: [None, ('INTE', (2,)), ('UNION', (2,)), ('INTE', (2, 3)), ('UNION', (2, 3)), ('UNION', (3,))]}
+        for e1 in equas:
+            for e2 in equas:
+                for e3 in equas:
+                    for o1 in opsets[1]:
+                        for o2 in opsets[2]:
+                            yield {'spec': {1: (e1, o1), 2: (e2, o2), 3: (e3, None)}}
+
+    def call(spec):
+        d = DictVolumeT4()
+        for k, ((pl, mi), ops) in spec.items():
+            d[k] = VolumeT4(pl, mi, ops=ops, fictive=(k != 1))
+        before = {k: (set(v.pluses), set(v.minuses), v.ops) for k, v in d.items()}
+        CV.remove_empty_volumes(d, (901, 902))
+        after = {k: (set(v.pluses), set(v.minuses), v.ops) for k, v in d.items()}
+        return before, after
+
+    def ensures(result, spec):
+        before, after = result
+
+        def den(dic, k, sg):
+            pl, mi, ops = dic[k]
+            e = all(sg[s] for s in pl) and all(not sg[s] for s in mi)
+            if ops is None:
+                return e
+            vals = [den(dic, a, sg) for a in ops[1]]
+            return (e and all(vals)) if ops[0] == 'INTE' else (e or any(vals))
+        ok_same = ok_removed = True
+        for s5 in (False, True):
+            for s6 in (False, True):
+                for h in ((False, False), (False, True), (True, True)):       # never (901 and not 902)
+                    sg = {5: s5, 6: s6, 901: h[0], 902: h[1]}
+                    for k in before:
+                        if k in after:
+                            ok_same = ok_same and den(before, k, sg) == den(after, k, sg)
+                        else:
+                            ok_removed = ok_removed and not den(before, k, sg)
+        yield 'survivors-keep-their-denotation', ok_same
+        yield 'removed-volumes-were-empty', ok_removed
+        yield 'no-surface-on-both-sides', all(not (pl & mi) for pl, mi, _ in after.values())
+        yield 'no-dangling-operand', all(ops is None or all(a in after for a in ops[1]) for _, _, ops in after.values())
+        yield 'no-empty-operator', all(ops is None or len(ops[1]) > 0 for _, _, ops in after.values())
